@@ -475,8 +475,17 @@ def opSegs (f : Fam) (p : Text) (sched : String) (out : String) : String × Stri
     if !valid f "path" p then
       (if out == "invalid" then "skip" else "FAIL accepted an argument outside the RFC production")
     else
-      let want := ",".intercalate ((Oracle.schedule (segs p) sched.toList).map ohex)
-      verdict (check (out == want) "interleaved iteration does not yield the '/'-split pieces once each, in order")
+      let cs := sched.toList
+      let term := cs.getLast?.filter fun c => c == 'c' || c == 'l' || c == 'z'
+      let body := if term.isSome then cs.dropLast else cs
+      let sr := Oracle.scheduleRem (segs p) (body.map (· == 'f'))
+      let tail : List String := match term with
+        | some 'c' => [s!"rest={sr.2.length}"]
+        | some 'l' => [s!"last={ohex sr.2.getLast?}"]
+        | some _ => [s!"hint=ok rest={sr.2.length}"]
+        | none => []
+      let want := ",".intercalate (sr.1.map ohex ++ tail)
+      verdict (check (out == want) "interleaved iteration does not yield the '/'-split pieces once each, in order (or count/last/size_hint of the rest disagree)")
   (m, o)
 
 /-! ## comparison -/
@@ -656,7 +665,10 @@ def opPct (f : Fam) (kind : String) (x : Text) (out : String) : String × String
             some "ill-formed or overlong octets were read as well-formed text"]
       match v with
       | none => "ok"
-      | some msg => if Findings.f13 x then "FAIL " ++ msg ++ " [KF:F13]" else "FAIL " ++ msg
+      | some msg =>
+        -- F13 is about the character views; the octet view (and obtaining the view at all) must be
+        -- right for every valid component, inside the class too
+        if Findings.f13 x && g "bytes" == hex octets then "FAIL " ++ msg ++ " [KF:F13]" else "FAIL " ++ msg
   (m, o)
 
 /-- `pctref`: every component reached from a whole reference has exactly the decoded octets of
